@@ -52,7 +52,8 @@ def _attempt(E, L, idx, a):
     from quantity import Quantity, Unit
     name, req, exc, fn, syms = D.INVALID[idx]
     before = D.observe_directories(POOL_SYMS)
-    exc_cls = {'ValueError': ValueError, 'TypeError': TypeError, 'AssertionError': AssertionError}[exc]
+    exc_cls = {'ValueError': ValueError, 'TypeError': TypeError, 'AssertionError': AssertionError,
+               'Optional': Exception}[exc]
     try:
         fn(L)
     except exc_cls:
@@ -60,6 +61,9 @@ def _attempt(E, L, idx, a):
     except Exception as e:
         E.fail('invalid-declaration-raises', key='reject:%s:wrong-exception:%s' % (name, type(e).__name__))
     else:
+        if exc == 'Optional':
+            E.ok('declaration-accepted')
+            return 'accepted'
         E.fail('invalid-declaration-raises', key='reject:%s:accepted' % name)
         return
     after = D.observe_directories(POOL_SYMS)
@@ -96,7 +100,8 @@ def program_with_rejection(E, cfg):
     done = 0
     for k in range(n + 1):
         if k == pos:
-            _attempt(E, L, idx, a)
+            if _attempt(E, L, idx, a) == 'accepted':
+                return
         if k == n:
             break
         av = [i for i, (nm, rq, f) in enumerate(D.VALID)
